@@ -80,6 +80,9 @@ def build_harness(profile="dev", features=None):
     if features is None:
         features = default_features()
     features = sorted(features)
+    # tools/coverage.py substitutes a coverage-instrumented binary (diagnostic runs only)
+    if os.environ.get("HCLV_COVERAGE_BIN") and profile == "dev" and features == sorted(default_features()):
+        return os.environ["HCLV_COVERAGE_BIN"]
     tag = profile + "-" + ("+".join(f[:10] for f in features) if features else "none")
     tag = profile + "-" + hashlib.sha1(",".join(features).encode()).hexdigest()[:10]
     bindir = os.path.join(CACHE, "bin")
@@ -111,6 +114,8 @@ def build_harness(profile="dev", features=None):
 
 def build_cli(profile="dev"):
     """The real hclrs binary (no hooks), built from /repo's current tree into the cache."""
+    if os.environ.get("HCLRS_COVERAGE_CLI"):
+        return os.environ["HCLRS_COVERAGE_CLI"]
     with Lock("cargo"):
         cmd = ["cargo", "build", "--offline", "--bin", "hclrs",
                "--manifest-path", os.path.join(REPO, "Cargo.toml")]
